@@ -71,6 +71,14 @@ Theorem carries_is_carries_full : forall C b, carries C b -> carries_full C b.
 Proof. exact carries_carries_full. Qed.
 Print Assumptions carries_is_carries_full.
 
+(** On the scripts the harness generates for readers that attach EOF to data
+    (chunks and optionally one final Eof event) [rcar] is no more than the
+    notion used for the other stream-backed buffers. *)
+Theorem carrier_notions_agree_on_clean_scripts : forall evs C,
+  clean_script evs -> ccar C evs -> rcar C evs.
+Proof. exact clean_ccar_rcar. Qed.
+Print Assumptions carrier_notions_agree_on_clean_scripts.
+
 (** * The [ToReader] path: errorHandlingReader.
     [rstitched fuel cur k answers out e offered] (Buffer/EHFullReader.v) is
     [stitched] for io.Readers: the consumer reads with arbitrary buffer sizes
